@@ -122,10 +122,18 @@ func (c *Cluster) handleShareFetch(creq *clientReq, w *watchShareFetch) (kmsg.Re
 		resp.Topics[idx].Partitions = append(resp.Topics[idx].Partitions, sp)
 		return &resp.Topics[idx].Partitions[len(resp.Topics[idx].Partitions)-1]
 	}
+	// ackErrs remembers ack error codes in case this request parks in a
+	// watcher: the response is rebuilt from scratch on re-invocation,
+	// where acks are not processed again.
+	var ackErrs map[tpKey]int16
 	onAck := func(tid uuid, p int32, ec int16) {
 		if ec == 0 {
 			return // success - fetch phase handles the response entry
 		}
+		if ackErrs == nil {
+			ackErrs = make(map[tpKey]int16)
+		}
+		ackErrs[tpKey{tid, p}] = ec
 		donep(tid, p, 0).AcknowledgeErrorCode = ec
 	}
 	// onAckNotLeader routes a leader-mismatch on a piggybacked ack to
@@ -137,7 +145,7 @@ func (c *Cluster) handleShareFetch(creq *clientReq, w *watchShareFetch) (kmsg.Re
 	// migrates the cursor via the fetch-side NOT_LEADER path if the
 	// same partition was also being fetched.
 	onAckNotLeader := func(tid uuid, p int32, _ *partData) {
-		donep(tid, p, 0).AcknowledgeErrorCode = kerr.NotLeaderForPartition.Code
+		onAck(tid, p, kerr.NotLeaderForPartition.Code)
 	}
 
 	// Session management.
@@ -436,6 +444,21 @@ func (c *Cluster) handleShareFetch(creq *clientReq, w *watchShareFetch) (kmsg.Re
 	if len(ensureAcks) > 0 {
 		ensureAckedParts(resp, ensureAcks, addTopic)
 	}
+	// Watcher re-invocation: the acks were processed (and possibly
+	// rejected) in the initial invocation; carry their error codes into
+	// the rebuilt response so the client does not see them as successful.
+	if w != nil {
+		for i := range resp.Topics {
+			t := &resp.Topics[i]
+			for j := range t.Partitions {
+				k := tpKey{t.TopicID, t.Partitions[j].Partition}
+				if ec, ok := w.ackErrs[k]; ok {
+					t.Partitions[j].AcknowledgeErrorCode = ec
+					delete(w.ackErrs, k) // first entry of the partition only
+				}
+			}
+		}
+	}
 
 	// If no records acquired and this is the initial invocation, consider
 	// waiting for new data (MinBytes/MaxWait long-poll). Even when
@@ -454,6 +477,7 @@ func (c *Cluster) handleShareFetch(creq *clientReq, w *watchShareFetch) (kmsg.Re
 				creq:    creq,
 				session: session,
 				ackTs:   ackTs,
+				ackErrs: ackErrs,
 			}
 			wsf.cb = func() {
 				select {
